@@ -11,7 +11,8 @@ PID = 'C04'
 
 def units(tier, seed):
     if tier == 'quick':
-        f = [(n, m) for n in (1, 2, 3, 4, 5, 6) for m in (1, 2, 3)] + [(3, 4), (2, 4)]
+        # tall shapes (more than twice as many objects as properties, and the mirror image) are part of the quick tier
+        f = [(n, m) for n in (1, 2, 3, 4, 5, 6) for m in (1, 2, 3)] + [(3, 4), (2, 4), (9, 3), (8, 2), (7, 3)]
         t = _mk.QUICK_TABLES
     else:
         f = [(n, m) for n in range(1, 9) for m in (1, 2, 3)] + [(n, 4) for n in range(1, 6)] + [(2, 5), (3, 5)]
